@@ -219,6 +219,41 @@ mod h {
         core::mem::forget((with, without));
     }
 
+    /// Unusual ARGUMENT names (trailing underscore as used to dodge keywords, leading underscore,
+    /// digit): the wire key is the argument's name verbatim, on the way out and on the way in, for
+    /// a variant message and for the flat migrate message.
+    #[kani::proof]
+    #[kani::unwind(11)]
+    fn ser_dec_arg_names() {
+        use crate::optional::op::sv as op;
+        use support::rec::{K_END, K_FIELD, K_STRUCT, K_STRUCT_VARIANT, K_U64};
+        use support::sym::str_eq;
+        let v: [u64; 3] = kani::any();
+        match record(&op::ExecMsg::ArgNames { type_: v[0], _lead: v[1], x2: v[2] }) {
+            Ok(r) => {
+                assert!(r.n == 8 && r.ev[0].k == K_STRUCT_VARIANT && str_eq(r.ev[0].s, "arg_names") && r.ev[0].num == 3);
+                assert!(r.ev[1].k == K_FIELD && str_eq(r.ev[1].s, "type_") && r.ev[2].k == K_U64 && r.ev[2].num == v[0], "key = argument name, verbatim");
+                assert!(r.ev[3].k == K_FIELD && str_eq(r.ev[3].s, "_lead") && r.ev[4].num == v[1], "key = argument name, verbatim");
+                assert!(r.ev[5].k == K_FIELD && str_eq(r.ev[5].s, "x2") && r.ev[6].num == v[2] && r.ev[7].k == K_END);
+            }
+            Err(_) => assert!(false),
+        }
+        match record(&op::MigrateMsg { ref_: v[0] }) {
+            Ok(m) => assert!(m.n == 4 && m.ev[0].k == K_STRUCT && m.ev[0].num == 1 && str_eq(m.ev[1].s, "ref_") && m.ev[2].num == v[0], "flat key = argument name, verbatim"),
+            Err(_) => assert!(false),
+        }
+        let named: Result<op::ExecMsg, E> = decode(Msg { name: "arg_names", body: Obj { keys: ["type_", "_lead", "x2"], vals: [num(v[0]), num(v[1]), num(v[2])] } });
+        let trimmed: Result<op::ExecMsg, E> = decode(Msg { name: "arg_names", body: Obj { keys: ["type", "lead", "x2"], vals: [num(v[0]), num(v[1]), num(v[2])] } });
+        assert!(matches!(&named, Ok(op::ExecMsg::ArgNames { type_, _lead, x2 }) if *type_ == v[0] && *_lead == v[1] && *x2 == v[2]), "the JSON named by the signature parses back");
+        assert!(trimmed.is_err(), "keys other than the argument names do not fill the arguments");
+        let flat: Result<op::MigrateMsg, E> = decode(Obj { keys: ["ref_"], vals: [num(v[0])] });
+        let flat_trimmed: Result<op::MigrateMsg, E> = decode(Obj { keys: ["ref"], vals: [num(v[0])] });
+        assert!(matches!(&flat, Ok(op::MigrateMsg { ref_ }) if *ref_ == v[0]));
+        assert!(flat_trimmed.is_err());
+        kani::cover!(true);
+        core::mem::forget((named, trimmed, flat, flat_trimmed));
+    }
+
     // ---- (c) body dimension ----------------------------------------------------------------------
     /// One harness per (handler, set of body layouts); every arm calls with a *constant* layout
     /// (concrete sizes).  `core` = ordered, permuted, one missing, duplicated; `rest` = the others.
